@@ -121,8 +121,13 @@ def deliver(encoded, cuts, enc, bufsize, gaps=()):
         w = SocketWrapper(sock, encoding=ENC[enc], bufsize=bufsize)
         out = bytearray()
         while True:
+            l0 = len(sock.log)
             r = w.read(1)
             if not r:
+                if not any(o in ("eof", "timeout", "oserror") for _, o in sock.log[l0:]):
+                    # an empty result means "peer closed or timed out" to every caller (the reader ends its iteration
+                    # on it): a receive that merely completed no chunk is not a reason
+                    raise Fail("empty-read-without-close-or-timeout", f"read(1) returned nothing after {len(out)} decoded bytes although every receive of this call delivered data ({[o for _, o in sock.log[l0:]][:6]}); enc {enc} bufsize {bufsize}")
                 if not sock.closed_by_peer:
                     continue  # timeout / transient error: poll again (bounded by the socket's call budget)
                 break
